@@ -55,20 +55,27 @@ theorem xinv_{name} {{s s' : State}} {{a : ActorId}} {{c : Choice}} (g : Xinv s)
     · clear x2 x3
       by_cases h0 : (0 : Nat) = a
       · subst h0; (try x_simp); grind
-      · have h0' : ¬ a = 0 := fun h => h0 h.symm
-        (try x_simp); grind
-    · have := x2 b
+      · (try simp only [State.put, State.putS, State.finish, State.write, upd_apply, if_neg h0])
+        first
+        | exact x1
+        | (have h0' : ¬ a = 0 := fun h => h0 h.symm
+           (try x_simp); grind)
+    · have hx2b := x2 b
       clear x2 x3
       by_cases hba : b = a
       · subst hba; (try x_simp); grind
       · (try simp only [State.put, State.putS, State.finish, State.write, upd_apply, if_neg hba])
-        (try x_simp); grind
-    · have := x3 b hb
+        first
+        | exact hx2b
+        | ((try x_simp); grind)
+    · have hx3b := x3 b hb
       clear x2 x3
       by_cases hba : b = a
       · subst hba; (try x_simp); grind
       · (try simp only [State.put, State.putS, State.finish, State.write, upd_apply, if_neg hba])
-        (try x_simp); grind)
+        first
+        | exact hx3b
+        | ((try x_simp); grind))
 '''
 out+='''
 theorem xinv_step {s s' : State} {a : ActorId} {c : Choice} (g : Xinv s)
